@@ -52,15 +52,15 @@ package odal
 //@   property C16
 //@   requires s != nil && p != nil && s.moduleStates != nil
 //@   requires "odal" in s.moduleStates ==> dyntype(s.moduleStates["odal"], *State) && s.moduleStates["odal"].(*State) != nil
-//@   modifies m.currentSession, m.currentParticipant, m.state, contents(s.moduleStates)
+//@   modifies {C03} m.currentSession, m.currentParticipant, m.state, contents(s.moduleStates)
 //@   allocates
 //@   ensures m.currentSession == s && m.currentParticipant == p && m.state != nil
-//@   ensures {C16} "odal" in s.moduleStates && s.moduleStates["odal"].(*State) == m.state
-//@   ensures {C16} old("odal" in s.moduleStates) ==> m.state == old(s.moduleStates["odal"].(*State)) && same_contents(s.moduleStates)
+//@   ensures {C16,C03} "odal" in s.moduleStates && s.moduleStates["odal"].(*State) == m.state
+//@   ensures {C16,C03} old("odal" in s.moduleStates) ==> m.state == old(s.moduleStates["odal"].(*State)) && same_contents(s.moduleStates)
 
 //@ func (*modules/odal.Module).handleAssetInstanceAdd
 //@   event
-//@   modifies m.state.assetInstances, contents(m.state.assetInstances), m.state.assetInstanceIDs.currentID, contents(m.state.assetInstanceIDs.reusableIDs), all ghost.*
+//@   modifies {C03} m.state.assetInstances, contents(m.state.assetInstances), m.state.assetInstanceIDs.currentID, contents(m.state.assetInstanceIDs.reusableIDs), all ghost.*
 //@   allocates
 //@   property C16, C04
 //@   let req = decoded(msg, odalpb.AssetInstanceAddRequest)
@@ -102,7 +102,7 @@ package odal
 
 //@ func (*modules/odal.Module).handleEntityDelete
 //@   event
-//@   modifies contents(m.state.assetInstances)
+//@   modifies {C03} contents(m.state.assetInstances)
 //@   allocates
 //@   property C16, C06
 //@   let id = decoded(msg, hagallpb.EntityDeleteRequest).EntityId
